@@ -96,6 +96,12 @@ LOAD = [
     ("spaces-before-comment", 3000, lambda n, p: "k: v" + " " * n + "# c" + p["nl"] + "j: w" + p["nl"]),
     ("flow-seq-wide-gaps", 300, lambda n, p: "[" + ("%s," % _w(p) + " " * 40) * n + "z]" + p["nl"]),
     ("literal-trailing-spaces-lines", 700, lambda n, p: "k: |" + p["nl"] + ("  x" + " " * 30 + p["nl"]) * n),
+    # constructors that build their node in one step and deeply (an application constructor calling construct_mapping(deep=True);
+    # python/object/apply and python/object/new under the unsafe loader), with aliases to collections constructed earlier
+    ("deep-application-constructor-with-aliases", 500, lambda n, p: "".join("- &a%d [%s]%s- !item {ref: *a%d, n: %d}%s" % (i, _w(p), p["nl"], i, i, p["nl"]) for i in range(n)), "deep-constructor"),
+    ("deep-application-constructor-one-shared-alias", 500, lambda n, p: "- &big [" + ", ".join([_w(p)] * 20) + "]" + p["nl"] + "".join("- !item {ref: *big, n: %d}%s" % (i, p["nl"]) for i in range(n)), "deep-constructor"),
+    ("unsafe-object-apply-with-aliases", 400, lambda n, p: "".join("- &a%d [%s]%s- !!python/object/apply:builtins.list [*a%d]%s- !!python/object/new:canary_objs.Point [*a%d, %d]%s" % (
+        i, _w(p), p["nl"], i, p["nl"], i, i, p["nl"]) for i in range(n)), "unsafe"),
     ("sets-and-omaps", 500, lambda n, p: "s: !!set {" + ", ".join("e%d" % i for i in range(n)) + "}" + p["nl"] + "o: !!omap [" + ", ".join("k%d: v" % i for i in range(n)) + "]" + p["nl"]),
 ]
 
@@ -132,8 +138,37 @@ DUMP = [
     ("many-tuple-keys", 500, lambda n, p: {(i, p["word"]): i for i in range(n)}),
     ("deep-first-keys", 300, lambda n, p: {((tuple(range(n)), 1), 2): "v"}),
     ("many-anchored-shared-lists", 400, lambda n, p: [x for i in range(n) for x in ([[i]] * 2)]),
+    # text that is written verbatim (allow_unicode) in each quoted / block style: wide characters, no space to fold at
+    ("cjk-no-spaces-double-quoted-verbatim", 1500, lambda n, p: "\u65e5\u672c\u8a9e" * n, {"allow_unicode": True, "default_style": '"'}),
+    ("cjk-no-spaces-single-quoted-verbatim", 1500, lambda n, p: "\u65e5\u672c\u8a9e" * n, {"allow_unicode": True, "default_style": "'"}),
+    ("cjk-no-spaces-plain-verbatim", 1500, lambda n, p: "\u65e5\u672c\u8a9e" * n, {"allow_unicode": True}),
+    ("cjk-no-spaces-folded-verbatim", 1500, lambda n, p: "\u65e5\u672c\u8a9e" * n, {"allow_unicode": True, "default_style": ">"}),
+    ("cjk-words-canonical-verbatim", 1000, lambda n, p: "\u65e5\u672c \u8a9e\u3067 " * n, {"allow_unicode": True, "canonical": True, "width": 30}),
+    ("cjk-escaped-double-quoted", 1000, lambda n, p: "\u65e5\u672c\u8a9e" * n, {"default_style": '"', "width": 40}),
+    ("long-ascii-no-spaces-double-quoted-narrow", 3000, lambda n, p: "x" * n, {"default_style": '"', "width": 10}),
     ("dates-and-bytes", 700, lambda n, p: [__import__("datetime").date(2001, 1, 1 + i % 28) for i in range(n)] + [b"x" * 10] * n),
 ]
+
+
+_loaders = {}
+
+
+def _deep_loader():
+    import yaml
+    if "deep" not in _loaders:
+        L = type("DeepItemLoader", (yaml.SafeLoader,), {})
+        L.add_constructor("!item", lambda loader, node: tuple(sorted(loader.construct_mapping(node, deep=True).items(), key=repr)))
+        _loaders["deep"] = L
+    return _loaders["deep"]
+
+
+def _canaries():
+    import os
+    import sys
+    d = os.path.join(os.path.dirname(os.path.dirname(os.path.abspath(__file__))), "canaries")
+    if d not in sys.path:
+        sys.path.append(d)
+    import canary_objs  # noqa: F401
 
 
 def eval_family(case):
@@ -148,6 +183,8 @@ def eval_family(case):
     failures = []
     counts = []
     opts = p.get("opts", {})
+    if kind == "dump" and len(fam) > 3:
+        opts = dict(opts, **fam[3])        # options that belong to the family
     form = p.get("form", "str") if kind == "load" else "value"
     cl.add("%s:form:%s" % (kind, form) if kind == "load" else "dump:to-%s" % ("stream" if p.get("to_stream") else "string"))
     for k in (1, 2, 4):
@@ -165,6 +202,11 @@ def eval_family(case):
                 c = calls_of(lambda: list(yaml.compose_all(x, Loader=yaml.SafeLoader)))
             elif kind == "load" and api == "compose+serialize":
                 c = calls_of(lambda: yaml.serialize_all(list(yaml.compose_all(x, Loader=yaml.SafeLoader)), Dumper=yaml.SafeDumper))
+            elif kind == "load" and api == "deep-constructor":
+                c = calls_of(lambda: list(yaml.load_all(x, Loader=_deep_loader())))
+            elif kind == "load" and api == "unsafe":
+                _canaries()
+                c = calls_of(lambda: list(yaml.load_all(x, Loader=yaml.UnsafeLoader)))
             elif kind == "load" and api == "full":
                 c = calls_of(lambda: list(yaml.load_all(x, Loader=yaml.FullLoader)))
             elif kind == "load":
